@@ -16,13 +16,22 @@ def check(ctx):
     ctx.assume("calls are assumed to terminate; Thread.start() failing half-way is outside the fault model")
     r = E.discover(ctx.model)
     ur = make_user_reaching(ctx.model)
-    E.rule_get_task_done(ctx, "C07.L1", r)
-    E.rule_catch_all(ctx, "C07.L2", r)
-    E.rule_sentinels(ctx, "C07.L3", r)
-    E.rule_pool_joins(ctx, "C07.L4", r)
-    E.rule_queue_effects(ctx, "C07.L6", r, rid_seed="C07.L6", rid_unbounded="C07.L5")
-    E.rule_cycle_check_first(ctx, "C07.L7", r)
-    E.rule_nothing_blocks_under_lock(ctx, "C07.L8", r, ur)
-    E.rule_queue_internals(ctx, "C07.L8", r)
-    E.rule_atomic_counter(ctx, "C07.L8", r)
-    E.rule_counting_agreement(ctx, "C07.L7", r)
+    ctx.run(E.rule_get_task_done, "C07.L1", r)
+    ctx.run(E.rule_catch_all, "C07.L2", r)
+    ctx.run(E.rule_sentinels, "C07.L3", r)
+    ctx.run(E.rule_pool_joins, "C07.L4", r)
+    ctx.run(E.rule_queue_effects, "C07.L6", r, rid_seed="C07.L6", rid_unbounded="C07.L5")
+    ctx.run(E.rule_cycle_check_first, "C07.L7", r)
+    ctx.run(E.rule_nothing_blocks_under_lock, "C07.L8", r, ur)
+    ctx.run(E.rule_queue_internals, "C07.L8", r)
+    ctx.run(E.rule_atomic_counter, "C07.L8", r)
+    ctx.run(E.rule_counting_agreement, "C07.L7", r)
+    from . import stalerules as S
+    from .extra import rule_composite_exit_stack, rule_error_path_total
+    rr = R.discover(ctx.model, r)
+    ctx.run(S.rule_stale_check_sees_stored_nodes, "C07.L7", rr)
+    ctx.run(S.rule_apply_examines_whole_plan, "C07.L7", rr)
+    ctx.run(E.rule_callbacks_only_via_engine, "C07.L7", r, [rr.runcb, rr.stalecb])
+    ctx.run(rule_composite_exit_stack, "C07.L4")
+    ctx.run(R.rule_observer_exit, "C07.L4", rr)
+    ctx.run(rule_error_path_total, "C07.L2")
